@@ -617,9 +617,12 @@ class SPDSpec(PairSpec):
 
   def gen_batch(self, rng, cfg, n):
     out = []
+    # the metric is scale invariant (2|x-y|/|x+y|): a third of the batches use tiny dyadic units
+    # (exact in float64), so a non-zero denominator far below 1e-8 must still divide
+    scale = Fr(1, 2 ** rng.choice([40, 60])) if rng.random() < 0.33 else Fr(1)
     for _ in range(n):
-      x = rand_val(rng, -4, 6)
-      y = -x if rng.random() < 0.15 else rand_val(rng, -4, 6)
+      x = rand_val(rng, -4, 6) * scale
+      y = -x if rng.random() < 0.15 else rand_val(rng, -4, 6) * scale
       out.append([enc(x), enc(y)])
     return out
 
